@@ -9,7 +9,9 @@ Type expressions: `Name` | `(Name arg…)` | `(tuple t…)` | `(ref t)` | `(refm
 * `(sendsync <type>)` → `<send> <sync>` (`1`/`0`)
 * `(hashfree <Name>)` → `1`/`0`: no `HashMap`/`HashSet` in any definition reachable from `Name`
 * `(immutable <Name>)` → `1`/`0`: no cell / lock / atomic in any definition reachable from `Name`
-* `(run-fresh …)` → `ok` (runtime case, see below)
+* `(static-ok <NAME>)` → `1`/`0`/`none`, `(statics)` → `<count> <all write-once 1|0>` from the regenerated
+  list of statics
+* `(run-fresh …)`, `(run-pair …)` → `ok` (runtime cases, see below)
 * `(run-shared …)`, `(run-mix …)`, `(compile-shared …)` → `ok`: runtime cases, nothing for the model to compute
   (thread interleavings are outside the model; the harness oracle compares with the sequential run).
 -/
@@ -46,7 +48,15 @@ def handleAutotraits : String → List Sexp → Option String
   | "hashfree", [atom n] =>
     some (bit ((findDef Generated.typeDefs n).isSome && hashFreeFrom Generated.typeDefs [n]))
   | "immutable", [atom n] => some (bit (immutableFrom Generated.typeDefs [n]))
+  | "static-ok", [atom n] =>
+    -- every extracted static of that name is write-once (`none` = no such static)
+    match Generated.statics.filter (fun s => s.name == n) with
+    | [] => some "none"
+    | l => some (bit (l.all (staticWriteOnce Generated.typeDefs)))
+  | "statics", [] =>
+    some s!"{Generated.statics.length} {bit (staticsWriteOnce Generated.typeDefs Generated.statics)}"
   | "run-fresh", _ => some "ok"
+  | "run-pair", _ => some "ok"
   | "run-shared", _ => some "ok"
   | "compile-shared", _ => some "ok"
   | "run-mix", _ => some "ok"
